@@ -407,6 +407,6 @@ def run(tier):
     chk.assumptions += [
         "an ESF object's result is a deterministic function of (observable, x, Q2, class) and the run configuration: hidden state inside numba/LeProHQ/scipy and the memo tables of pure functions (sv operators, n3lo interpolators) are outside the model; the bit-exact comparison of real runs is what would expose them",
         "requests are well formed (dicts contain x and Q2); a request lacking one is a caller error",
-        "memo tables: the census (harness/translate_memo.py, regenerated each run) finds every table a function of src/yadism fills and looks up, and every 'computed' flag; Lean decides that for each of them whatever the miss branch reads is in the key or an attribute assigned in __init__ only (memo_keys_cover_deps), pins the list of tables and keys (memo_census) and proves that a covered table is transparent for every history (covered_site_is_transparent). The analysis is syntactic: a key that mentions a name is taken to determine it (F13 was of that kind: seen by the get_esf_histories tie, not by the census); stores into an object's attributes from outside its class, and hidden state of compiled libraries, are not seen",
+        "memo tables: the census (harness/translate_memo.py, regenerated each run) finds every table a function of src/yadism fills and looks up, and every 'computed' flag; Lean decides that for each of them whatever the miss branch reads is in the key or an attribute assigned in __init__ only (memo_keys_cover_deps), pins the list of tables and keys (memo_census) and proves that a covered table is transparent for every history (covered_site_is_transparent); the same walk lists the process-wide mutable state that any function changes (module- and class-level containers, class attributes rebound in functions, `global` names): exactly the table of loaded N3LO grids, itself a covered memo (shared_state_census, shared_state_is_a_covered_memo). The analysis is syntactic: a key that mentions a name is taken to determine it (F13 was of that kind: seen by the get_esf_histories tie, not by the census); stores into an object's attributes from outside its class, and hidden state of compiled libraries, are not seen",
     ]
     return chk
